@@ -18,6 +18,7 @@ def errStr : Err → String
   | .runtime => "RuntimeError"
   | .index => "IndexError"
   | .unbound => "UnboundLocalError"
+  | .negPow => "ValueError"
 
 def lstStr (l : List Nat) : String := s!"{l.length} " ++ natsStr l
 
